@@ -2,14 +2,29 @@
   C15 — XPath results do not depend on evaluation history, caching or threads.
 
   Property theorems only.  Model: AHP/Model/Cache.lean (`_cache.py`, `XPathExpression.__init__`, the
-  per-thread quantum machine, the lock-level small-step programs).  Helper lemmas and the cache-free
-  specification `specStep`/`specRun`: AHP/Lemmas/Cache.lean, AHP/Lemmas/CacheHist.lean.
+  per-thread quantum machine, the lock-level machine with one step per statement of a critical section, whole
+  threads on it), AHP/Model/CacheHeap.lean (the sharing of compiled objects).  Helper lemmas and the cache-free
+  specification `specStep`/`specRun`: AHP/Lemmas/Cache.lean, AHP/Lemmas/CacheHist.lean; lock level:
+  AHP/Lemmas/CacheLock.lean (uninterrupted runs, what a section computes), CacheLockSys.lean (`LockBits`,
+  `LockInv`), CacheLockThreads.lean (`Sim`: lock level ⇒ quantum level); heap: AHP/Lemmas/CacheHeap.lean.
 
   Parameters everywhere: `compile : E → Option V` (the XPath compiler; `none` = raises), `key : E → K`
   (sha1 of the text — injective by assumption), `eval : V → T → R` (evaluation; `R` includes run-time
   errors).  What `eval ∘ compile` *is* is C14; here only that nothing else enters a result.
+
+  Honest scope of "a compiled expression object reused any number of times on any trees": in `Model/Cache.lean`
+  a compiled form is a *value* `V` and `eval` a pure function, so `Event.evalSlot` is `eval v t` in the model and
+  in the specification alike — reuse-independence holds there BY CONSTRUCTION.  What C15b PROVES is cache
+  coherence: whatever is handed out under `key e` — fresh, cached, evicted and re-entered — is `compile e`
+  (needs `key` injective, the sha1 assumption).  The object sharing the code really has (the cache stores the
+  live object; a hit hands out a shallow copy of its operation list, i.e. the same operation objects) is modelled
+  separately in `Model/CacheHeap.lean`; `heap_results_independent_of_history` below shows that this level
+  behaves like the value level under the explicit hypothesis `EvalReadsOnly` ("`evaluate` writes neither the
+  expression object nor its operations") — an ASSUMPTION on the code of `evaluate`/`applyFunction`, watched by
+  the tie (reuse events), not proved — and `writing_evaluation_breaks_independence` that it cannot be dropped.
 -/
-import AHP.Lemmas.CacheHist
+import AHP.Lemmas.CacheLockThreads
+import AHP.Lemmas.CacheHeap
 import AHP.Gen.Tables
 namespace AHP.C15
 open AHP AHP.Cache
@@ -177,101 +192,457 @@ theorem unfinished_thread_progresses (hinj : Function.Injective key) (MAX CLEAR 
 
 end
 
-/-! #### C15c, lock level — the critical sections release on every path, nothing deadlocks -/
+/-! #### C15b on shared objects — what "reused any number of times" needs -/
+
+section Heap
+variable {E K O T R : Type} [DecidableEq K]
+variable (compile : E → Option (List O)) (key : E → K)
+
+/-- C15b on the heap of shared objects (cache holds the live object, hits hand out shallow copies sharing
+    the operation objects, held objects are evaluated again and again): **if evaluation only reads**
+    (`EvalReadsOnly`), every history shows exactly what the value model shows … -/
+theorem heap_run_is_value_run (evalH : Heap O → Nat → T → Heap O × R) (eval : List O → T → R)
+    (hro : EvalReadsOnly evalH eval) (MAX CLEAR : Nat) (evs : List (Event E T)) :
+    hrun compile key evalH MAX CLEAR HWorld.empty evs
+      = (run compile key eval MAX CLEAR World.empty evs).map (·.1) :=
+  hrun_eq_run compile key MAX CLEAR evalH eval hro evs HWorld.empty HWorld.OK.empty
+
+/-- … hence the cache-free specification: results depend on the expression text and the tree only, also
+    for objects reused any number of times on any trees and for copies sharing operations with the cached
+    object.  The hypothesis `hro` is the assumption on `evaluate`; it enters in `hstep_spec`, evaluation cases. -/
+theorem heap_results_independent_of_history (evalH : Heap O → Nat → T → Heap O × R) (eval : List O → T → R)
+    (hro : EvalReadsOnly evalH eval) (hinj : Function.Injective key) (MAX CLEAR : Nat) (evs : List (Event E T)) :
+    hrun compile key evalH MAX CLEAR HWorld.empty evs = specRun compile eval [] evs := by
+  rw [heap_run_is_value_run compile key evalH eval hro]
+  exact results_independent_of_history compile key eval hinj MAX CLEAR evs
+
+end Heap
+
+/-- An evaluation that writes: it returns the sum of the object's operations and bumps the first of them
+    (think of an operation object keeping a counter, or a memo, in itself). -/
+def writingEval (h : Heap Nat) (x : Nat) (_t : Nat) : Heap Nat × Nat :=
+  let addrs := h.exprs.getD x []
+  (⟨match addrs with
+     | a :: _ => h.ops.set a (h.ops.getD a 0 + 1)
+     | [] => h.ops, h.exprs⟩,
+   (h.deref x).foldl (· + ·) 0)
+
+/-- Why `EvalReadsOnly` cannot be dropped: with `writingEval` the object held in slot 0 shows `1` when
+    evaluated right away and `2` when, in between, the *same text* was queried once — the query got a
+    shallow copy of the cached live object (= the held one), evaluated it, and wrote through the shared
+    operation object.  A result then depends on the history, not only on text and tree. -/
+theorem writing_evaluation_breaks_independence :
+    let compile : Nat → Option (List Nat) := fun e => some [e, 1]
+    hrun compile id writingEval 3 1 HWorld.empty [.new 0, .evalSlot 0 0] = [.compiled, .result 1] ∧
+    hrun compile id writingEval 3 1 HWorld.empty [.new 0, .query 0 0, .evalSlot 0 0]
+      = [.compiled, .result 1, .result 2] := by
+  decide
+
+/-- Non-vacuity of `EvalReadsOnly`: the reading evaluation (sum of the operations, heap untouched). -/
+example : EvalReadsOnly (fun (h : Heap Nat) x (_ : Nat) => (h, (h.deref x).foldl (· + ·) 0))
+    (fun v _ => v.foldl (· + ·) 0) := ⟨fun _ _ _ => rfl, fun _ _ _ => rfl⟩
+
+/-- … and a heap history with a miss, a hit (shallow copy), reuse and a compile error under it. -/
+example :
+    let compile : Nat → Option (List Nat) := fun e => if e = 9 then none else some [e, 1]
+    hrun compile id (fun (h : Heap Nat) x (_ : Nat) => (h, (h.deref x).foldl (· + ·) 0)) 3 1 HWorld.empty
+      [.new 0, .query 0 0, .evalSlot 0 0, .query 9 0, .new 0, .evalSlot 1 5, .evalSlot 7 0]
+      = [.compiled, .result 1, .result 1, .compileError, .compiled, .result 1, .noSlot] := by
+  decide
+
+
+/-! #### C15c, lock level — the critical sections, statement by statement
+
+  Machine: `lstep` (`Model/Cache.lean`), one step per statement between `acquire` and `release`, all of them
+  reading and writing the *shared* cache.  `LSys`/`lsysStep`: threads each performing one cache operation
+  (incl. a failing store).  `LTSys`/`ltStep`: whole threads working through their event lists.
+  Invariants and the simulation: `Lemmas/CacheLockSys.lean`, `Lemmas/CacheLockThreads.lean`. -/
 
 section Lock
 variable {K V : Type} [DecidableEq K]
 
+/-- C15c (lock): every step of every thread keeps mutual exclusion, the meaning of the lock bit, the cache
+    invariant *whenever the lock is free*, and "the thread inside will, by its own statements alone, restore
+    the invariant and free the lock".  (Inside a section the cache invariant is broken in general —
+    `mid_section_breaks_inv` — which is what the lock is for.) -/
+theorem lock_inv_step (MAX CLEAR : Nat) (hb : CLEAR < MAX) (s s' : LSys K V) (i : Nat)
+    (h : LockInv MAX CLEAR s) (hs : lsysStep MAX CLEAR s i = some s') : LockInv MAX CLEAR s' :=
+  lockInv_step hb h hs
+
+/-- C15c (lock, initial configurations): any number of threads about to call `getCachedExpression` /
+    `setCachedExpression` (or already returned), lock free, cache in order. -/
+theorem lock_inv_initial (MAX CLEAR : Nat) (s : LSys K V) (hfree : s.sh.held = false) (hi : Inv MAX s.sh.cache)
+    (hout : ∀ pc ∈ s.pcs, pc.holds = false) : LockInv MAX CLEAR s :=
+  lockInv_init hfree hi hout
+
+/-- C15c (lock, every reachable configuration of cache operations): `LockInv` — mutual exclusion included —
+    holds after every schedule (picks of blocked threads are wasted quanta). -/
+theorem lock_inv_every_run (MAX CLEAR : Nat) (hb : CLEAR < MAX) (s : LSys K V) (hfree : s.sh.held = false)
+    (hi : Inv MAX s.sh.cache) (hout : ∀ pc ∈ s.pcs, pc.holds = false) (sched : List Nat) :
+    LockInv MAX CLEAR (lsysRun MAX CLEAR s sched) :=
+  lockInv_run hb sched s (lockInv_init hfree hi hout)
+
+/-- C15c (the lock bit is checked, and the check never fails): a thread inside a section on a configuration
+    satisfying the invariant always finds the lock held — it is never blocked. -/
+theorem holder_never_blocked (MAX CLEAR : Nat) (s : LSys K V) (h : LockInv MAX CLEAR s) (i : Nat) (pc : Pc K V)
+    (hpc : s.pcs[i]? = some pc) (hh : pc.holds = true) : (lsysStep MAX CLEAR s i).isSome = true := by
+  have hheld : s.sh.held = true := h.held.mpr ⟨i, pc, hpc, hh⟩
+  have := lstep_isSome_of_holds MAX CLEAR hh hheld
+  unfold lsysStep lsysStepG
+  simp only [hpc]
+  unfold lstep at this
+  cases hl : lstepG true MAX CLEAR s.sh pc with
+  | none => rw [hl] at this; cases this
+  | some q => rfl
+
+/-- C15c (`acquire` blocks): a thread about to acquire cannot move while another one is inside. -/
+theorem acquire_blocks_while_held (MAX CLEAR : Nat) (s : LSys K V) (i : Nat) (pc : Pc K V)
+    (hpc : s.pcs[i]? = some pc) (hh : pc.holds = false) (hd : pc.isDone = false) (hheld : s.sh.held = true) :
+    lsysStep MAX CLEAR s i = none := by
+  have := lstep_blocked MAX CLEAR hh hd hheld
+  unfold lsysStep lsysStepG
+  unfold lstep at this
+  simp only [hpc, this]
+
+/-- C15c (no deadlock): in every configuration satisfying the lock invariant in which some thread is
+    not finished, some unfinished thread can move. -/
+theorem no_deadlock (MAX CLEAR : Nat) (s : LSys K V) (h : LockInv MAX CLEAR s)
+    (hun : ∃ (i : Nat) (pc : Pc K V), s.pcs[i]? = some pc ∧ pc.isDone = false) :
+    ∃ (i : Nat) (pc : Pc K V), s.pcs[i]? = some pc ∧ pc.isDone = false ∧ (lsysStep MAX CLEAR s i).isSome = true := by
+  cases hh : s.sh.held with
+  | true =>
+    obtain ⟨j, pj, hj, hpj⟩ := h.held.mp hh
+    exact ⟨j, pj, hj, Pc.not_done_of_holds hpj, holder_never_blocked MAX CLEAR s h j pj hj hpj⟩
+  | false =>
+    obtain ⟨i, pc, hi, hpc⟩ := hun
+    refine ⟨i, pc, hi, hpc, ?_⟩
+    have hnh : pc.holds = false := by
+      cases hx : pc.holds with
+      | false => rfl
+      | true =>
+        have := h.held.mpr ⟨i, pc, hi, hx⟩
+        rw [hh] at this; cases this
+    have := lstep_isSome_of_free MAX CLEAR hnh hh
+    unfold lsysStep lsysStepG
+    simp only [hi]
+    unfold lstep at this
+    cases hl : lstepG true MAX CLEAR s.sh pc with
+    | none => rw [hl] at this; cases this
+    | some q => rfl
+
+/-- C15c (no deadlock, unconditionally): after every schedule from an initial configuration. -/
+theorem no_deadlock_every_run (MAX CLEAR : Nat) (hb : CLEAR < MAX) (s : LSys K V) (hfree : s.sh.held = false)
+    (hi : Inv MAX s.sh.cache) (hout : ∀ pc ∈ s.pcs, pc.holds = false) (sched : List Nat)
+    (hun : ∃ (i : Nat) (pc : Pc K V), (lsysRun MAX CLEAR s sched).pcs[i]? = some pc ∧ pc.isDone = false) :
+    ∃ (i : Nat) (pc : Pc K V), (lsysRun MAX CLEAR s sched).pcs[i]? = some pc ∧ pc.isDone = false ∧
+      (lsysStep MAX CLEAR (lsysRun MAX CLEAR s sched) i).isSome = true :=
+  no_deadlock MAX CLEAR _ (lock_inv_every_run MAX CLEAR hb s hfree hi hout sched) hun
+
+/-- C15c (all exits release): from *any* program point inside a critical section and *any* state of the
+    shared data, the thread's own next statements (never blocked while the lock is held) reach the return
+    of the method with the lock released — through the loops, both return paths of `getCachedExpression`
+    and the normal and the exception exit of `setCachedExpression`.  (The former machine needed two steps;
+    here the number of statements depends on the data, so the statement is "finitely many".) -/
+theorem releases_on_all_paths (MAX CLEAR : Nat) (sh : Shared K V) (hheld : sh.held = true) (pc : Pc K V)
+    (hp : pc.holds = true) :
+    ∃ n sh' r x, lsteps MAX CLEAR n sh pc = some (sh', .done r x) ∧ sh'.held = false := by
+  obtain ⟨c', r, x, hruns⟩ := exits_of_holds MAX CLEAR sh.cache hp
+  have hsh : sh = ⟨true, sh.cache⟩ := by cases sh; simp_all
+  rw [← hsh] at hruns
+  obtain ⟨n, hn⟩ := runs_iff_lsteps.mp hruns
+  exact ⟨n, _, r, x, hn, rfl⟩
+
+/-- C15c (the exception path): a store whose body raises releases the lock, re-raises and leaves the cache
+    as it was. -/
+theorem failing_store_releases (MAX CLEAR : Nat) (c : State K V) (k : K) (v : V) :
+    lsteps MAX CLEAR 3 ⟨false, c⟩ (.setAcquire k v true) = some (⟨false, c⟩, .done none true) := by
+  rfl
+
+/-- C15c (atomicity, derived): one whole critical section of `getCachedExpression`, run statement by
+    statement without interruption from any cache `c`, is exactly the model's `get` — and likewise `set`.
+    With `lock_level_refines_quantum` below: *every* section of *every* interleaved run is uninterrupted
+    in this sense, because nobody else can write in between. -/
+theorem get_section_is_get (MAX CLEAR : Nat) (c : State K V) (k : K) :
+    ∃ n, lsteps MAX CLEAR n ⟨false, c⟩ (.getAcquire k) = some (⟨false, (get c k).1⟩, .done (get c k).2 false) :=
+  runs_iff_lsteps.mp (get_section_runs MAX CLEAR c k)
+
+theorem set_section_is_set (MAX CLEAR : Nat) (c : State K V) (k : K) (v : V) :
+    ∃ n, lsteps MAX CLEAR n ⟨false, c⟩ (.setAcquire k v false) = some (⟨false, set MAX CLEAR c k v⟩, .done none false) :=
+  runs_iff_lsteps.mp (set_section_runs MAX CLEAR c k v)
+
+end Lock
+
+/-! #### C15c, lock level — whole threads: the lock-level machine refines the quantum machine -/
+
+section LockThreads
+variable {E K V T R : Type} [DecidableEq K]
+variable (compile : E → Option V) (key : E → K) (eval : V → T → R)
+
+/-- C15c (refinement): for every number of threads, every event list per thread and every lock-level
+    schedule (one *statement* per pick; picks of blocked threads are wasted), the configuration reached is
+    the configuration the quantum machine reaches under the schedule projected at the release points
+    (`ltProject`: the picks that were a `release` or a thread-local evaluation), seen through `Sim`:
+    the threads are the quantum machine's threads, the cache is the quantum machine's cache whenever the
+    lock is free, and the thread inside a section is, by its own remaining statements, about to turn the
+    shared cache into exactly `tstep` of the cache as it was when it acquired — each completed critical
+    section = exactly `get` / `set` on the state at its `acquire`, because nobody else can write in
+    between (`LockBits.other_outside` is where mutual exclusion enters the proof). -/
+theorem lock_level_refines_quantum (MAX CLEAR : Nat) (evss : List (List (Event E T))) (sched : List Nat) :
+    Sim compile key eval MAX CLEAR
+      (ltRun compile key eval MAX CLEAR (LTSys.init evss) sched)
+      (sysRun compile key eval MAX CLEAR (Sys.init evss)
+        (ltProject compile key eval MAX CLEAR (LTSys.init evss : LTSys E K V T R) sched)) :=
+  (sim_run compile key eval MAX CLEAR sched _ _ (bits_init evss) (sim_init compile key eval MAX CLEAR evss)).2
+
+/-- The refinement, spelled out for the two things one observes: the threads and the cache. -/
+theorem lock_level_threads_and_cache (MAX CLEAR : Nat) (evss : List (List (Event E T))) (sched : List Nat) :
+    let s := ltRun compile key eval MAX CLEAR (LTSys.init evss : LTSys E K V T R) sched
+    let q := sysRun compile key eval MAX CLEAR (Sys.init evss)
+      (ltProject compile key eval MAX CLEAR (LTSys.init evss : LTSys E K V T R) sched)
+    q.threads = s.threads.map (LThread.abs compile eval) ∧ (s.sh.held = false → s.sh.cache = q.cache) :=
+  let h := lock_level_refines_quantum compile key eval MAX CLEAR evss sched
+  ⟨h.threads, h.free⟩
+
+/-- C15c (lock): mutual exclusion and the meaning of the lock bit in every reachable configuration of
+    whole threads. -/
+theorem mutual_exclusion_reachable (MAX CLEAR : Nat) (evss : List (List (Event E T))) (sched : List Nat) :
+    let s := ltRun compile key eval MAX CLEAR (LTSys.init evss : LTSys E K V T R) sched
+    LockBits s.sh.held s.pcs :=
+  (sim_run compile key eval MAX CLEAR sched _ _ (bits_init evss) (sim_init compile key eval MAX CLEAR evss)).1
+
+/-- C15c (lock): `LockInv` holds initially and in every reachable configuration — mutual exclusion, the
+    lock bit, the cache invariant at every release point, and the thread inside restores it. -/
+theorem lock_inv_reachable (MAX CLEAR : Nat) (hb : CLEAR < MAX) (evss : List (List (Event E T))) (sched : List Nat) :
+    LockInv MAX CLEAR (ltRun compile key eval MAX CLEAR (LTSys.init evss : LTSys E K V T R) sched).toLSys := by
+  have hbits := mutual_exclusion_reachable compile key eval MAX CLEAR evss sched
+  have hsim := lock_level_refines_quantum compile key eval MAX CLEAR evss sched
+  have hinv := sysRun_inv compile key eval MAX CLEAR hb
+    (ltProject compile key eval MAX CLEAR (LTSys.init evss : LTSys E K V T R) sched) (Sys.init evss) (Inv.empty MAX)
+  generalize ltRun compile key eval MAX CLEAR (LTSys.init evss : LTSys E K V T R) sched = s at *
+  generalize sysRun compile key eval MAX CLEAR (Sys.init evss) _ = q at *
+  refine ⟨hbits.excl, hbits.held, ?_, ?_⟩
+  · intro hfree
+    show Inv MAX s.sh.cache
+    rw [hsim.free hfree]; exact hinv
+  · intro i pc hpc hh
+    have hpc' : s.pcs[i]? = some pc := hpc
+    simp only [LTSys.pcs, List.getElem?_map] at hpc'
+    cases hlt : s.threads[i]? with
+    | none => simp [hlt] at hpc'
+    | some lt =>
+      simp only [hlt, Option.map_some, Option.some.injEq] at hpc'
+      cases hp : lt.pc with
+      | none => rw [hp] at hpc'; simp only [Option.getD_none] at hpc'; rw [← hpc'] at hh; cases hh
+      | some p =>
+        rw [hp] at hpc'; simp only [Option.getD_some] at hpc'; subst hpc'
+        obtain ⟨r, x, hruns, _⟩ := hsim.mid i lt p hlt hp hh
+        exact ⟨_, r, x, tstep_inv hb lt.th hinv, hruns⟩
+
+/-- C15a at the lock level: the cache bound (and the whole invariant) holds at every release point of
+    every run — i.e. whenever the lock is free. -/
+theorem bound_at_release_points (MAX CLEAR : Nat) (hb : CLEAR < MAX) (evss : List (List (Event E T))) (sched : List Nat) :
+    let s := ltRun compile key eval MAX CLEAR (LTSys.init evss : LTSys E K V T R) sched
+    s.sh.held = false →
+      Inv MAX s.sh.cache ∧ (dictKeys s.sh.cache.map).length ≤ MAX ∧ s.sh.cache.recent.length ≤ MAX := by
+  intro s hfree
+  have h := (lock_inv_reachable compile key eval MAX CLEAR hb evss sched).free hfree
+  exact ⟨h, h.keys_length ▸ h.bound, h.bound⟩
+
+/-- C15c (results at the lock level): under every statement-level schedule, at every point, what a thread
+    has observed so far is a prefix of its solo results (`ThreadOK` of its quantum-level view); -/
+theorem lock_level_every_point (hinj : Function.Injective key) (MAX CLEAR : Nat) (hb : CLEAR < MAX)
+    (evss : List (List (Event E T))) (sched : List Nat) (i : Nat) (lt : LThread E K V T R)
+    (hlt : (ltRun compile key eval MAX CLEAR (LTSys.init evss) sched).threads[i]? = some lt) :
+    ThreadOK compile eval (lt.abs compile eval) (specRun compile eval [] (evss.getD i [])) := by
+  have hsim := lock_level_refines_quantum compile key eval MAX CLEAR evss sched
+  have hok := every_schedule compile key eval hinj MAX CLEAR hb evss
+    (ltProject compile key eval MAX CLEAR (LTSys.init evss : LTSys E K V T R) sched)
+  apply hok.thr i
+  rw [hsim.threads]
+  simp [List.getElem?_map, hlt]
+
+/-- C15c (results at the lock level): a lock-level thread that has finished under any statement-level
+    schedule has observed exactly its solo results.  Composes `lock_level_refines_quantum` with
+    `finished_thread_solo_results`. -/
+theorem lock_level_solo_results (hinj : Function.Injective key) (MAX CLEAR : Nat) (hb : CLEAR < MAX)
+    (evss : List (List (Event E T))) (sched : List Nat) (i : Nat) (lt : LThread E K V T R)
+    (hlt : (ltRun compile key eval MAX CLEAR (LTSys.init evss) sched).threads[i]? = some lt)
+    (hpc : lt.pc = none) (hdone : lt.th.todo = []) :
+    lt.th.obs = specRun compile eval [] (evss.getD i []) := by
+  have hsim := lock_level_refines_quantum compile key eval MAX CLEAR evss sched
+  have habs : lt.abs compile eval = lt.th := by unfold LThread.abs; rw [hpc]
+  apply finished_thread_solo_results compile key eval hinj MAX CLEAR hb evss
+    (ltProject compile key eval MAX CLEAR (LTSys.init evss : LTSys E K V T R) sched) i lt.th _ hdone
+  rw [hsim.threads]
+  simp [List.getElem?_map, hlt, habs]
+
+/-- C15c (no deadlock, unconditionally, whole threads): in every reachable configuration in which some
+    thread is not finished, some unfinished thread can take its next statement. -/
+theorem no_deadlock_reachable (MAX CLEAR : Nat) (evss : List (List (Event E T))) (sched : List Nat)
+    (hun : ∃ (i : Nat) (lt : LThread E K V T R),
+      (ltRun compile key eval MAX CLEAR (LTSys.init evss) sched).threads[i]? = some lt ∧ lt.finished = false) :
+    ∃ (i : Nat) (lt : LThread E K V T R),
+      (ltRun compile key eval MAX CLEAR (LTSys.init evss) sched).threads[i]? = some lt ∧ lt.finished = false ∧
+      (ltStep compile key eval MAX CLEAR (ltRun compile key eval MAX CLEAR (LTSys.init evss) sched) i).isSome = true := by
+  have hbits := mutual_exclusion_reachable compile key eval MAX CLEAR evss sched
+  generalize ltRun compile key eval MAX CLEAR (LTSys.init evss : LTSys E K V T R) sched = s at *
+  simp only at hbits
+  cases hh : s.sh.held with
+  | true =>
+    obtain ⟨j, pj, hj, hpj⟩ := hbits.held.mp hh
+    simp only [LTSys.pcs, List.getElem?_map] at hj
+    cases hlt : s.threads[j]? with
+    | none => simp [hlt] at hj
+    | some lt =>
+      simp only [hlt, Option.map_some, Option.some.injEq] at hj
+      obtain ⟨th, pc⟩ := lt
+      cases pc with
+      | none => simp only [Option.getD_none] at hj; rw [← hj] at hpj; cases hpj
+      | some p =>
+        simp only [Option.getD_some] at hj; subst hj
+        exact ⟨j, _, hlt, rfl, ltStep_isSome_sect compile key eval MAX CLEAR hlt (lstep_isSome_of_holds MAX CLEAR hpj hh)⟩
+  | false =>
+    obtain ⟨i, lt, hlt, hfin⟩ := hun
+    refine ⟨i, lt, hlt, hfin, ?_⟩
+    obtain ⟨th, pc⟩ := lt
+    cases pc with
+    | none => exact ltStep_isSome_between compile key eval MAX CLEAR hlt
+    | some p =>
+      have hnh : p.holds = false := by
+        cases hx : p.holds with
+        | false => rfl
+        | true =>
+          have := hbits.held.mpr ⟨i, p, by simp [LTSys.pcs, List.getElem?_map, hlt], hx⟩
+          rw [hh] at this; cases this
+      exact ltStep_isSome_sect compile key eval MAX CLEAR hlt (lstep_isSome_of_free MAX CLEAR hnh hh)
+
+end LockThreads
+
+/-! #### The lock has content in the model -/
+
+/-- Inside a section the cache invariant is broken: after the `remove` of a hit and before the `append`,
+    the map holds a key the recency list does not.  Nobody else may look — that is what the lock is for. -/
+theorem mid_section_breaks_inv :
+    let s0 : LSys Nat Nat := ⟨⟨false, ⟨[(7, 1)], [7]⟩⟩, [.getAcquire 7]⟩
+    let s := lsysRun 3 1 s0 [0, 0, 0]
+    s.pcs = [.getRemove 7 1] ∧ s.sh.held = true ∧ s.sh.cache.recent = [] ∧ dictKeys s.sh.cache.map = [7] := by
+  decide
+
+/-- Counter-model: the *same* machine without the tests of `held` (`lstepG false`: `acquire` never blocks).
+    Two threads store the same expression; interleaved so that both finish their remove loop before either
+    appends, they leave the key twice in the recency list — the invariant is broken at a point where both
+    have returned and the "lock" is free.  With the lock (`lsysRun`), the same picks give `[7]`. -/
+theorem without_lock_invariant_breaks :
+    let s0 : LSys Nat Nat := ⟨⟨false, State.empty⟩, [.setAcquire 7 1 false, .setAcquire 7 1 false]⟩
+    let sched := [0, 0, 0, 1, 1, 1, 0, 1, 0, 1, 0, 1, 1, 1, 1, 1, 1, 1]
+    let bad := lsysRunG false 3 1 s0 sched
+    let good := lsysRun 3 1 s0 sched
+    (bad.pcs = [.done none false, .done none false] ∧ bad.sh.held = false ∧ bad.sh.cache.recent = [7, 7]
+      ∧ ¬ bad.sh.cache.recent.Nodup) ∧
+    (good.pcs = [.done none false, .done none false] ∧ good.sh.held = false ∧ good.sh.cache.recent = [7]) := by
+  decide
+
+/-! #### The former lock-level statements, about the one-step machine `lstepA` (kept, superseded)
+
+  These are the theorems this file stated before the critical sections were split into statements.  In
+  `lstepA` a whole `get`/`set` is one step taken whatever `held` is, so they say nothing about what the
+  lock protects (review B, H4); they are kept unchanged (only the names of the machine's types carry an
+  `A`) and are superseded by the section above. -/
+
+namespace Atomic
+section Lock
+variable {K V : Type} [DecidableEq K]
+
 /-- A lock-level configuration: the shared cell and one program point per thread. -/
-structure LSys (K V : Type) where
+structure LSysA (K V : Type) where
   sh : Shared K V
-  pcs : List (Pc K V)
+  pcs : List (PcA K V)
 
 /-- Thread `i` moves; `none` = it is blocked on `acquire` (or does not exist). -/
-def lsysStep (MAX CLEAR : Nat) (s : LSys K V) (i : Nat) : Option (LSys K V) :=
+def lsysStepA (MAX CLEAR : Nat) (s : LSysA K V) (i : Nat) : Option (LSysA K V) :=
   match s.pcs[i]? with
   | none => none
   | some pc =>
-    match lstep MAX CLEAR s.sh pc with
+    match lstepA MAX CLEAR s.sh pc with
     | none => none
     | some (sh', pc') => some ⟨sh', s.pcs.set i pc'⟩
 
 /-- Mutual exclusion + the lock bit says whether somebody is inside + the data invariant. -/
-structure LockInv (MAX : Nat) (s : LSys K V) : Prop where
-  excl : ∀ (i j : Nat) (pi pj : Pc K V), s.pcs[i]? = some pi → s.pcs[j]? = some pj → pi.holds = true → pj.holds = true → i = j
-  held : s.sh.held = true ↔ ∃ (i : Nat) (pc : Pc K V), s.pcs[i]? = some pc ∧ pc.holds = true
+structure LockInvA (MAX : Nat) (s : LSysA K V) : Prop where
+  excl : ∀ (i j : Nat) (pi pj : PcA K V), s.pcs[i]? = some pi → s.pcs[j]? = some pj → pi.holds = true → pj.holds = true → i = j
+  held : s.sh.held = true ↔ ∃ (i : Nat) (pc : PcA K V), s.pcs[i]? = some pc ∧ pc.holds = true
   inv : Inv MAX s.sh.cache
 
 /-- Facts about one lock-level step of one thread. -/
-theorem lstep_facts (MAX CLEAR : Nat) (hb : CLEAR < MAX) (sh sh' : Shared K V) (pc pc' : Pc K V)
+theorem lstep_facts (MAX CLEAR : Nat) (hb : CLEAR < MAX) (sh sh' : Shared K V) (pc pc' : PcA K V)
     (hinv : Inv MAX sh.cache) (hheld : pc.holds = true → sh.held = true)
-    (hl : lstep MAX CLEAR sh pc = some (sh', pc')) :
+    (hl : lstepA MAX CLEAR sh pc = some (sh', pc')) :
     (pc'.holds = true → (pc.holds = true ∨ sh.held = false)) ∧
     ((pc.holds = true ∨ pc'.holds = true) → sh'.held = pc'.holds) ∧
     (pc.holds = false → pc'.holds = false → sh'.held = sh.held) ∧
     Inv MAX sh'.cache := by
   cases pc with
   | getAcquire k =>
-    simp only [lstep] at hl
+    simp only [lstepA] at hl
     split at hl
     · cases hl
     · rename_i hh
       simp only [Option.some.injEq, Prod.mk.injEq] at hl
       obtain ⟨rfl, rfl⟩ := hl
       simp only [Bool.not_eq_true] at hh
-      simp [Pc.holds, hinv, hh]
+      simp [PcA.holds, hinv, hh]
   | getBody k =>
-    simp only [lstep, Option.some.injEq, Prod.mk.injEq] at hl
+    simp only [lstepA, Option.some.injEq, Prod.mk.injEq] at hl
     obtain ⟨rfl, rfl⟩ := hl
     have hh : sh.held = true := hheld rfl
-    simp [Pc.holds, get_inv hinv, hh]
+    simp [PcA.holds, get_inv hinv, hh]
   | getRelease r =>
-    simp only [lstep, Option.some.injEq, Prod.mk.injEq] at hl
+    simp only [lstepA, Option.some.injEq, Prod.mk.injEq] at hl
     obtain ⟨rfl, rfl⟩ := hl
-    simp [Pc.holds, hinv]
+    simp [PcA.holds, hinv]
   | setAcquire k v f =>
-    simp only [lstep] at hl
+    simp only [lstepA] at hl
     split at hl
     · cases hl
     · rename_i hh
       simp only [Option.some.injEq, Prod.mk.injEq] at hl
       obtain ⟨rfl, rfl⟩ := hl
       simp only [Bool.not_eq_true] at hh
-      simp [Pc.holds, hinv, hh]
+      simp [PcA.holds, hinv, hh]
   | setBody k v f =>
     have hh : sh.held = true := hheld rfl
-    simp only [lstep] at hl
+    simp only [lstepA] at hl
     split at hl
     · simp only [Option.some.injEq, Prod.mk.injEq] at hl
       obtain ⟨rfl, rfl⟩ := hl
-      simp [Pc.holds, hinv, hh]
+      simp [PcA.holds, hinv, hh]
     · simp only [Option.some.injEq, Prod.mk.injEq] at hl
       obtain ⟨rfl, rfl⟩ := hl
-      simp [Pc.holds, set_inv hb hinv, hh]
+      simp [PcA.holds, set_inv hb hinv, hh]
   | setRelease =>
-    simp only [lstep, Option.some.injEq, Prod.mk.injEq] at hl
+    simp only [lstepA, Option.some.injEq, Prod.mk.injEq] at hl
     obtain ⟨rfl, rfl⟩ := hl
-    simp [Pc.holds, hinv]
+    simp [PcA.holds, hinv]
   | setFail =>
-    simp only [lstep, Option.some.injEq, Prod.mk.injEq] at hl
+    simp only [lstepA, Option.some.injEq, Prod.mk.injEq] at hl
     obtain ⟨rfl, rfl⟩ := hl
-    simp [Pc.holds, hinv]
+    simp [PcA.holds, hinv]
   | done r x =>
-    simp only [lstep, Option.some.injEq, Prod.mk.injEq] at hl
+    simp only [lstepA, Option.some.injEq, Prod.mk.injEq] at hl
     obtain ⟨rfl, rfl⟩ := hl
-    simp [Pc.holds, hinv]
+    simp [PcA.holds, hinv]
 
 /-- C15c (lock): every step of every thread keeps mutual exclusion, the meaning of the lock bit, and
     the cache invariant — the data is only ever touched by the unique lock holder, one whole
     `get`/`set` at a time. -/
-theorem lock_inv_step (MAX CLEAR : Nat) (hb : CLEAR < MAX) (s s' : LSys K V) (i : Nat)
-    (h : LockInv MAX s) (hs : lsysStep MAX CLEAR s i = some s') : LockInv MAX s' := by
-  unfold lsysStep at hs
+theorem lock_inv_step (MAX CLEAR : Nat) (hb : CLEAR < MAX) (s s' : LSysA K V) (i : Nat)
+    (h : LockInvA MAX s) (hs : lsysStepA MAX CLEAR s i = some s') : LockInvA MAX s' := by
+  unfold lsysStepA at hs
   cases hpc : s.pcs[i]? with
   | none => simp [hpc] at hs
   | some pc =>
     simp only [hpc] at hs
-    cases hl : lstep MAX CLEAR s.sh pc with
+    cases hl : lstepA MAX CLEAR s.sh pc with
     | none => simp [hl] at hs
     | some q =>
       obtain ⟨sh', pc'⟩ := q
@@ -352,29 +723,29 @@ theorem lock_inv_step (MAX CLEAR : Nat) (hb : CLEAR < MAX) (s s' : LSys K V) (i 
 
 /-- C15c (no deadlock): in every configuration satisfying the lock invariant in which some thread is
     not finished, some unfinished thread can move. -/
-theorem no_deadlock (MAX CLEAR : Nat) (s : LSys K V) (h : LockInv MAX s)
-    (hun : ∃ (i : Nat) (pc : Pc K V), s.pcs[i]? = some pc ∧ pc.isDone = false) :
-    ∃ (i : Nat) (pc : Pc K V), s.pcs[i]? = some pc ∧ pc.isDone = false ∧ (lsysStep MAX CLEAR s i).isSome = true := by
+theorem no_deadlock (MAX CLEAR : Nat) (s : LSysA K V) (h : LockInvA MAX s)
+    (hun : ∃ (i : Nat) (pc : PcA K V), s.pcs[i]? = some pc ∧ pc.isDone = false) :
+    ∃ (i : Nat) (pc : PcA K V), s.pcs[i]? = some pc ∧ pc.isDone = false ∧ (lsysStepA MAX CLEAR s i).isSome = true := by
   cases hh : s.sh.held with
   | true =>
     obtain ⟨j, pj, hj, hpj⟩ := h.held.mp hh
     refine ⟨j, pj, hj, ?_, ?_⟩
-    · cases pj <;> simp [Pc.holds, Pc.isDone] at hpj ⊢
-    · unfold lsysStep
+    · cases pj <;> simp [PcA.holds, PcA.isDone] at hpj ⊢
+    · unfold lsysStepA
       simp only [hj]
       cases pj with
-      | setBody k v f => cases f <;> simp [lstep]
-      | getBody k => simp [lstep]
-      | getRelease r => simp [lstep]
-      | setRelease => simp [lstep]
-      | setFail => simp [lstep]
-      | getAcquire k => simp [Pc.holds] at hpj
-      | setAcquire k v f => simp [Pc.holds] at hpj
-      | done r x => simp [Pc.holds] at hpj
+      | setBody k v f => cases f <;> simp [lstepA]
+      | getBody k => simp [lstepA]
+      | getRelease r => simp [lstepA]
+      | setRelease => simp [lstepA]
+      | setFail => simp [lstepA]
+      | getAcquire k => simp [PcA.holds] at hpj
+      | setAcquire k v f => simp [PcA.holds] at hpj
+      | done r x => simp [PcA.holds] at hpj
   | false =>
     obtain ⟨i, pc, hi, hpc⟩ := hun
     refine ⟨i, pc, hi, hpc, ?_⟩
-    unfold lsysStep
+    unfold lsysStepA
     simp only [hi]
     have hnh : pc.holds = false := by
       cases hx : pc.holds with
@@ -382,16 +753,16 @@ theorem no_deadlock (MAX CLEAR : Nat) (s : LSys K V) (h : LockInv MAX s)
       | true =>
         have := h.held.mpr ⟨i, pc, hi, hx⟩
         rw [hh] at this; cases this
-    cases pc <;> simp [Pc.holds, Pc.isDone] at hnh hpc <;> simp [lstep, hh]
+    cases pc <;> simp [PcA.holds, PcA.isDone] at hnh hpc <;> simp [lstepA, hh]
 
 /-- C15c (all exits release): from any program point inside a critical section, the thread's own next
     steps (never blocked) reach `done` with the lock released within two steps — including the
     exception path of `setCachedExpression` and both return paths of `getCachedExpression`. -/
-theorem releases_on_all_paths (MAX CLEAR : Nat) (sh : Shared K V) (pc : Pc K V) (hp : pc.holds = true) :
-    ∃ sh1 pc1, lstep MAX CLEAR sh pc = some (sh1, pc1) ∧
+theorem releases_on_all_paths (MAX CLEAR : Nat) (sh : Shared K V) (pc : PcA K V) (hp : pc.holds = true) :
+    ∃ sh1 pc1, lstepA MAX CLEAR sh pc = some (sh1, pc1) ∧
       ((pc1.isDone = true ∧ sh1.held = false) ∨
-       ∃ sh2 pc2, lstep MAX CLEAR sh1 pc1 = some (sh2, pc2) ∧ pc2.isDone = true ∧ sh2.held = false) := by
-  cases pc <;> simp [Pc.holds] at hp
+       ∃ sh2 pc2, lstepA MAX CLEAR sh1 pc1 = some (sh2, pc2) ∧ pc2.isDone = true ∧ sh2.held = false) := by
+  cases pc <;> simp [PcA.holds] at hp
   · exact ⟨_, _, rfl, Or.inr ⟨_, _, rfl, rfl, rfl⟩⟩
   · exact ⟨_, _, rfl, Or.inl ⟨rfl, rfl⟩⟩
   · rename_i k v f
@@ -406,21 +777,22 @@ theorem releases_on_all_paths (MAX CLEAR : Nat) (sh : Shared K V) (pc : Pc K V) 
     is what the lock-level programs implement. -/
 theorem get_section_is_get (MAX CLEAR : Nat) (c : State K V) (k : K) :
     ∃ sh1 pc1 sh2 pc2 sh3,
-      lstep MAX CLEAR ⟨false, c⟩ (.getAcquire k) = some (sh1, pc1) ∧
-      lstep MAX CLEAR sh1 pc1 = some (sh2, pc2) ∧
-      lstep MAX CLEAR sh2 pc2 = some (sh3, .done (get c k).2 false) ∧
+      lstepA MAX CLEAR ⟨false, c⟩ (.getAcquire k) = some (sh1, pc1) ∧
+      lstepA MAX CLEAR sh1 pc1 = some (sh2, pc2) ∧
+      lstepA MAX CLEAR sh2 pc2 = some (sh3, .done (get c k).2 false) ∧
       sh3.cache = (get c k).1 ∧ sh3.held = false :=
   ⟨_, _, _, _, _, rfl, rfl, rfl, rfl, rfl⟩
 
 theorem set_section_is_set (MAX CLEAR : Nat) (c : State K V) (k : K) (v : V) :
     ∃ sh1 pc1 sh2 pc2 sh3,
-      lstep MAX CLEAR ⟨false, c⟩ (.setAcquire k v false) = some (sh1, pc1) ∧
-      lstep MAX CLEAR sh1 pc1 = some (sh2, pc2) ∧
-      lstep MAX CLEAR sh2 pc2 = some (sh3, .done none false) ∧
+      lstepA MAX CLEAR ⟨false, c⟩ (.setAcquire k v false) = some (sh1, pc1) ∧
+      lstepA MAX CLEAR sh1 pc1 = some (sh2, pc2) ∧
+      lstepA MAX CLEAR sh2 pc2 = some (sh3, .done none false) ∧
       sh3.cache = set MAX CLEAR c k v ∧ sh3.held = false :=
   ⟨_, _, _, _, _, rfl, rfl, rfl, rfl, rfl⟩
 
 end Lock
+end Atomic
 
 /-! #### Why the obligation is strict: `CLEAR = MAX` breaks bound and key agreement -/
 
@@ -443,5 +815,57 @@ example :
          (.result 20, [1, 0, 2]), (.result 30, [2, 3]), (.result 0, [2, 3, 0])] := by decide
 
 example : Function.Injective (id : Nat → Nat) := fun _ _ h => h
+
+/-! Lock level: a concrete two-thread schedule, statement by statement, run to completion. -/
+
+/-- Thread 0: `q e0 t0; q e1 t0`; thread 1: `q e0 t1; q e9 t0` (`e9` does not compile); bound 3/1. -/
+def exCompile : Nat → Option Nat := fun e => if e = 9 then none else some e
+def exEval : Nat → Nat → Nat := fun v t => v * 10 + t
+def exThreads : List (List (Event Nat Nat)) := [[.query 0 0, .query 1 0], [.query 0 1, .query 9 0]]
+/-- One statement per pick; the 5th and the 11th–12th pick find their thread blocked on `acquire`. -/
+def exSched : List Nat :=
+  [0,0,1,0,1,0,0,0,1,1,0,0,1,1,1,1,1,0,1,1,1,1,1,1,1,1,1,1,0,0,0,0,0,0,0,0,0,0,0,0,0,0,0,0,0,0,0,0,0]
+
+/-- The run completes: both threads finished with their solo results, lock free, cache in order; and the
+    schedule of the quantum machine it projects to (`lock_level_refines_quantum`). -/
+example :
+    let s := ltRun exCompile id exEval 3 1 (LTSys.init exThreads : LTSys Nat Nat Nat Nat Nat) exSched
+    s.threads.map (fun lt => (lt.pc, lt.th.todo.length, lt.th.obs)) =
+      [(none, 0, [.result 0, .result 10]), (none, 0, [.result 1, .compileError])] ∧
+    s.sh.held = false ∧ s.sh.cache.recent = [0, 1] ∧ dictKeys s.sh.cache.map = [0, 1] ∧
+    ltProject exCompile id exEval 3 1 (LTSys.init exThreads : LTSys Nat Nat Nat Nat Nat) exSched = [0, 1, 1, 1, 0, 0, 0] := by
+  decide +kernel
+
+/-- The same results from the specification, as `lock_level_solo_results` says. -/
+example : exThreads.map (specRun exCompile exEval []) = [[.result 0, .result 10], [.result 1, .compileError]] := by
+  decide
+
+/-- In the middle of that run (after 12 picks): thread 1 is inside `getCachedExpression` about to release,
+    thread 0 — having missed and compiled — is blocked on the `acquire` of its store. -/
+example :
+    let s := ltRun exCompile id exEval 3 1 (LTSys.init exThreads : LTSys Nat Nat Nat Nat Nat) (exSched.take 12)
+    s.threads.map (fun lt => lt.pc) = [some (.setAcquire 0 0 false), some (.getRelease none)] ∧ s.sh.held = true ∧
+    (ltStep exCompile id exEval 3 1 s 0).isNone = true ∧ (ltStep exCompile id exEval 3 1 s 1).isSome = true := by
+  decide +kernel
+
+/-- … and `LockInv` holds there (an instance with somebody inside), as in every reachable configuration. -/
+example : LockInv 3 1
+    (ltRun exCompile id exEval 3 1 (LTSys.init exThreads : LTSys Nat Nat Nat Nat Nat) (exSched.take 12)).toLSys :=
+  lock_inv_reachable exCompile id exEval 3 1 (by decide) exThreads (exSched.take 12)
+
+/-- A `LockInv` instance of cache operations: a lookup, a store and a failing store about to start. -/
+example : LockInv 3 1 (⟨⟨false, State.empty⟩, [.getAcquire 0, .setAcquire 1 1 false, .setAcquire 2 2 true]⟩ : LSys Nat Nat) :=
+  lock_inv_initial 3 1 _ rfl (Inv.empty 3) (by decide)
+
+/-- The eviction path statement by statement: a store into a full cache (3/1) takes 10 steps and is `set`;
+    after 4 of them the shared recency list is longer than `MAX` (the bound is broken inside the section). -/
+example :
+    let c : State Nat Nat := ⟨[(0, 0), (1, 1), (2, 2)], [0, 1, 2]⟩
+    (lsteps 3 1 10 ⟨false, c⟩ (.setAcquire 3 3 false)).map (fun p => (p.1.held, p.1.cache.map, p.1.cache.recent, p.2))
+      = some (false, (set 3 1 c 3 3).map, (set 3 1 c 3 3).recent, .done none false) ∧
+    (set 3 1 c 3 3).recent = [2, 3] ∧ (set 3 1 c 3 3).map = [(2, 2), (3, 3)] ∧
+    (lsteps 3 1 9 ⟨false, c⟩ (.setAcquire 3 3 false)).map (fun p => (p.1.held, p.2)) = some (true, .setRelease) ∧
+    (lsteps 3 1 4 ⟨false, c⟩ (.setAcquire 3 3 false)).map (fun p => (p.1.cache.recent, p.2)) = some ([0, 1, 2, 3], .setCheck) := by
+  decide +kernel
 
 end AHP.C15
